@@ -44,7 +44,7 @@ def same_keys(got, want, keys):
 class Check:
     id = PROP
     level = "exploration"
-    cases = {"quick": 500, "thorough": 25000}
+    cases = {"quick": 1800, "thorough": 20000}
     rule = ("campaign per case: one world, one query (filtered or not, ordered by 1-2 keys with ties straddling the cut or unordered, 1-3 roots, bfs/dfs, with or without `archives` over worlds holding small zips), "
             "two environments E1/E2 (arrival orders, DT_UNKNOWN, inode numbering, hash seed); the unlimited run under E1 gives M rows, then `limit N` is run for EVERY N in 0..M+2 under E1 and under E2. "
             "Non-trivial = non-default environment choice reached fselect; distinct = distinct event-log signature.")
